@@ -110,6 +110,7 @@ def parse_schema(line):
         d[k] = v
     d["B"] = int(d["B"])
     d["lenoffs"] = [int(f.split(":")[1]) for f in d["fields"].split(",")] if d["fields"] != "-" else []
+    d["ptr_offs"] = [int(x) for x in d["ptrs"].split(",")] if d.get("ptrs", "-") != "-" else []
     return d
 
 
@@ -170,6 +171,22 @@ def run(rep, tier, seed, replay=None):
                 h = mutate(r, wire, schemas[T])
                 des.append("des %s %s %s" % (T, hexs(h), cuts_for(r, len(h))))
                 meta.append(None)
+            if T == "M2" and len(wire) > schemas[T]["B"]:
+                # a checked message with one bit of a variable-length field flipped: CRC32C detects every single-bit error
+                w = bytearray(wire)
+                w[r.randrange(len(w) - schemas[T]["B"])] ^= 1 << r.randrange(8)
+                des.append("des %s %s %s" % (T, hexs(bytes(w)), cuts_for(r, len(w))))
+                meta.append("flip-field")
+                w = bytearray(wire)
+                cands = [i for i in range(len(w) - schemas[T]["B"], len(w)) if not any(p <= i - (len(w) - schemas[T]["B"]) < p + 8 for p in schemas[T]["ptr_offs"])]
+                w[r.choice(cands)] ^= 1 << r.randrange(8)
+                des.append("des %s %s %s" % (T, hexs(bytes(w)), cuts_for(r, len(w))))
+                meta.append("flip-body")
+                # the same alteration with the stored checksum overwritten by a constant (0, all ones, ...)
+                co = len(w) - schemas[T]["B"] + int(schemas[T]["crc"])
+                w[co:co + 4] = r.choice([b"\0\0\0\0", b"\xff\xff\xff\xff", b"\1\0\0\0"])
+                des.append("des %s %s %s" % (T, hexs(bytes(w)), cuts_for(r, len(w))))
+                meta.append("flip-body")
         for _ in range(300):
             d = rb(r, 0, 40)
             des.append("crc %s %d" % (hexs(d), r.randint(0, 2 ** 32 - 1)))
@@ -205,9 +222,13 @@ def run(rep, tier, seed, replay=None):
     for op, a, b, m in zip(des, impl, model, meta):
         t = op.split()
         if t[0] == "des":
-            rep.distinct((t[1], a.split()[0], "intact" if m else "hostile", "1elem" if t[3] == "-" else "frag"))
+            rep.distinct((t[1], a.split()[0], "intact" if (m and not isinstance(m, str)) else (m if isinstance(m, str) else "hostile"), "1elem" if t[3] == "-" else "frag"))
         v = None
-        if m is not None:
+        if m in ("flip-field", "flip-body"):
+            if not a.startswith("null"):
+                v = ("a checked message with one altered bit in a variable-length field was accepted (the checksum does not cover the fields)"
+                     if m == "flip-field" else "a checked message with one altered bit in its body was accepted")
+        elif m is not None:
             # round trip: the real serializer's bytes, re-fragmented, must give the message back
             if a.startswith("null"):
                 v = "round trip failed: a serialized %s was rejected by deserialize under fragmentation %s" % (m[1], t[3])
